@@ -300,7 +300,19 @@ async fn handle_rejection(err: Rejection) -> Result<impl Reply, Rejection> {
         }
         None => match err.find::<ApiError>() {
             Some(x) => Ok(reply::with_status(reply::json(x), StatusCode::BAD_REQUEST)),
-            None => Err(err),
+            None => {
+                if err.find::<warp::reject::UnsupportedMediaType>().is_some() {
+                    Ok(reply::with_status(
+                        reply::json(&ApiError {
+                            error: "Request content-type must be application/json".to_owned(),
+                            error_code: errors::INVALID_REQUEST_FORMAT,
+                        }),
+                        StatusCode::UNSUPPORTED_MEDIA_TYPE,
+                    ))
+                } else {
+                    Err(err)
+                }
+            }
         },
     }
 }
